@@ -10,7 +10,7 @@ LEVEL = "exploration"
 RULE = ("`python -m jasm.main` is run in a scratch working directory for rule/input pairs (S-syn listings with rules derived "
         "from them - positives and one-step near misses - and harness-built ELF objects with rules derived from their "
         "disassembly) x {-s, -b} x {--all-matches} x {--return_only_address} x --macros with 0-3 files in varying order (one "
-        "macro name defined differently in two files, so order decides). stderr is parsed by message ('Matched address: ...', "
+        "macro name defined differently in two files, so order decides; half of these rules also carry a config block: valid_addr_range on a listing, sections/style on an object). stderr is parsed by message ('Matched address: ...', "
         "'RESULT: Pattern found/not found'), timestamps ignored, and compared with the API result for the equivalent "
         "MatchConfig: RESULT found iff the API list is non-empty, one 'Matched address' line per API element, same order and "
         "text; exit status 0. Argument validation (no input, both -s and -b, no -p) and failing operations (missing file, "
@@ -46,12 +46,18 @@ def parse_stderr(err: str):
     return addrs, result
 
 
-def compare(ctx, ws, cwd, rule_path, inp, binary, all_matches, only_addr, macros, label):
+LOG_OPTIONS = ["--debug", "--info", "--enable_logging_to_file", "--enable_logging_to_terminal"]
+
+
+def compare(ctx, ws, cwd, rule_path, inp, binary, all_matches, only_addr, macros, label, log_options=()):
     args = ["-p", rule_path, "-b" if binary else "-s", inp]
     if all_matches:
         args.append("--all-matches")
     if only_addr:
         args.append("--return_only_address")
+    args += list(log_options)          # logging options change what is written besides the result, never the result
+    if log_options:
+        ctx.event("cli_runs_with_logging_options")
     if macros:
         args += ["--macros"] + macros
     api = real.match(rule_path, inp, binary=binary, ret="list", search="all" if all_matches else "first", only_addr=only_addr, macros=macros)
@@ -62,7 +68,7 @@ def compare(ctx, ws, cwd, rule_path, inp, binary, all_matches, only_addr, macros
         return
     case = {"argv": args, "rule": open(rule_path).read() if os.path.isfile(rule_path) else None,
             "macro_files": [open(m).read() for m in (macros or []) if os.path.isfile(m)],
-            "input_text": open(inp).read()[:20000] if (not binary and os.path.isfile(inp)) else None,
+            "input_text": open(inp, newline="").read()[:20000] if (not binary and os.path.isfile(inp)) else None,
             "input_b64": __import__("base64").b64encode(open(inp, "rb").read()).decode() if (binary and os.path.isfile(inp)) else None}
     ctx.event("cli_runs_compared")
     nontrivial = api[0] == "exc" or bool(api[1])
@@ -148,7 +154,8 @@ def run_shard(ctx):
             insts = L.gen_listing(rng, rng.choice([6, 12, 25]))
             inp = ws.write("l.s", L.render(insts, rng))
             binary = False
-            gen = RG.RuleGen(rng, insts, RG.Feat(operands=0.6, groups=0.2, nots=0.1, times_item=0.15, max_depth=1, max_spine=rng.choice([1, 2, 3])))
+            gen = RG.RuleGen(rng, insts, RG.Feat(operands=0.6, groups=0.3, nots=0.1, times_item=0.15, ocaps=0.2, icaps=0.1, ogroups=0.15, deref=0.3,
+                                                 max_depth=1, max_spine=rng.choice([1, 2, 3])))
             pattern = gen.rule()
             if not pattern or RG.pattern_cost(pattern) > 200:
                 continue
@@ -178,8 +185,26 @@ def run_shard(ctx):
             if any(isinstance(x, str) and x.startswith("@m") for x in pattern) and not (set(macros) & set(files[:2])):
                 macros.append(files[rng.randrange(2)])
             label = "macros"
-        rp = ws.write("rule.yaml", real.dump_rule({"pattern": pattern}))
-        compare(ctx, ws, cwd, rp, inp, binary, rng.random() < 0.5, rng.random() < 0.5, macros, label)
+        doc = {"pattern": pattern}
+        if label == "macros" and rng.random() < 0.5:
+            # a rule that also carries a config block: the command must match under the rule's config whatever else it loads
+            label = "macros+config"
+            if rng.random() < 0.5:
+                lo_, hi_ = rng.choice([("0x401000", "0x401fff"), ("0x500000", "0x5fffff"), ("401005", "401005")])
+                doc = {"config": {"valid_addr_range": {"min": lo_, "max": hi_}}, "pattern": rng.choice([[{"call": ["valid_addr"]}], [{"call": ["401005"]}], ["@k"] if files[0] in macros else ["push"]])}
+            else:
+                inp, binary = elfp, True
+                cfgb = {"sections": rng.choice([[".init"], [".text"], [".init", ".text"]])}
+                if rng.random() < 0.5:
+                    cfgb["style"] = "att"
+                doc = {"config": cfgb, "pattern": rng.choice([["hlt"], ["push"], ["ret"], ["leave", "ret"], ["@k"] if files[0] in macros else ["nop"]])}
+        elif rng.random() < 0.25:
+            doc = {"config": {"mnemonics-full-match": rng.random() < 0.5, "operands-full-match": rng.random() < 0.5}, "pattern": pattern}
+        rp = ws.write("rule.yaml", real.dump_rule(doc))
+        if not binary and rng.random() < 0.1:
+            inp = ws.write("crlf.s", open(inp).read().replace("\n", "\r\n").encode())
+        lo = tuple(o for o in LOG_OPTIONS if rng.random() < 0.2)
+        compare(ctx, ws, cwd, rp, inp, binary, rng.random() < 0.5, rng.random() < 0.5, macros, label, lo)
         done += 1
 
 
@@ -194,7 +219,7 @@ def replay(ctx, case):
         return
     rp = ws.write("rule.yaml", case["rule"])
     binary = case.get("input_b64") is not None
-    inp = ws.write("in.bin", __import__("base64").b64decode(case["input_b64"])) if binary else ws.write("in.s", case["input_text"])
+    inp = ws.write("in.bin", __import__("base64").b64decode(case["input_b64"])) if binary else ws.write("in.s", case["input_text"].encode())
     macros = [ws.write(f"m{i}.yaml", t) for i, t in enumerate(case.get("macro_files") or [])] or None
     a = case["argv"]
-    compare(ctx, ws, cwd, rp, inp, binary, "--all-matches" in a, "--return_only_address" in a, macros, "replay")
+    compare(ctx, ws, cwd, rp, inp, binary, "--all-matches" in a, "--return_only_address" in a, macros, "replay", tuple(o for o in LOG_OPTIONS if o in a))
